@@ -10,7 +10,7 @@ import gen
 from common import fx, unfx, enc_list, close, rq
 
 REQUIRED = ['ipsw_saturated', 'gtransport_saturated', 'aipsw_outcome_saturated', 'aipsw_weights_balanced',
-            'aipsw_weights_saturated_unstab', 'rd_rr_def', 'target_outcomes_irrelevant', 'aipsw_fit_generated']
+            'aipsw_weights_saturated_unstab', 'rd_rr_def', 'target_outcomes_irrelevant', 'aipsw_fit_generated', 'ipsw_fit_generated']
 RULE = ('random combined data sets: a study sample (1-2 categorical modifiers, <= 8 strata, both arms and both outcome '
         'values in every stratum) plus a target sample with at least one row per stratum; target rows carry A = NaN, and '
         'Y = NaN or junk values (both variants are run and must agree); cells: IPSW+treatment model, GTransportFormula, '
@@ -98,6 +98,11 @@ def model_k(chk, drv, e, df, covs, g, stab, which, case):
                          ns=enc_list(np.broadcast_to(np.asarray(smp['__numer__'], dtype=float), (len(smp),)), fx),
                          ds=enc_list(smp['__denom__'], fx), tw=enc_list(e.iptw, fx), **kw)
         ok = rep['status'] == 'ok' and np.allclose([unfx(t) for t in rep['w'].split(',')], smp['__ipsw__'], rtol=1e-12)
+        rep2, _ = drv.ask('ipswfit', c='f', hasw=0, hasiptw=int(e.iptw is not None), ipsw=enc_list(e.ipsw, fx),
+                          iptw=enc_list(np.ones(len(smp)) if e.iptw is None else e.iptw, fx), **kw)
+        chk.k(rep2['status'] == 'ok' and close(unfx(rep2['rd']), e.risk_difference, rtol=1e-9, atol=1e-12) and
+              close(unfx(rep2['rr']), e.risk_ratio, rtol=1e-9), 'IPSW.fit = definition generated from its source',
+              dict(case, model=rep2))
     elif which == 'GTransportFormula':
         d1, d0 = df.copy(), df.copy()
         d1['A'], d0['A'] = 1, 0
